@@ -76,6 +76,7 @@ void execute_plan(const Plan& plan) {
 	register_mtbdd_ops();
 	register_text_ops();
 	register_corpus_ops();
+	register_cli_ops();
 	register_final_hook(churn_final);
 	int last_client = -1;
 	for (size_t i = 0; i <= plan.steps.size(); ++i) {
